@@ -35,15 +35,22 @@ def runGroupByCase (cid : String) (field : String → List SExp) (events : List 
   let key := fn1 (match field "key" with | e :: _ => e.head | [] => "id")
   let skip := (field "skip").map parseVal
   let outer : List St1 := match field "otake" with | e :: _ => [.take e.nat 0 true] | [] => []
-  let rec go (w : GroupBy.World) (k : Nat) : List (List SExp) → List String
+  -- `kc`: calls of the key function so far — one per item that reaches GroupByObserver::next (event `q kc`)
+  let rec go (w : GroupBy.World) (kc : Nat) (k : Nat) : List (List SExp) → List String
     | [] => []
     | ev :: r =>
+      match ev with
+      | .atom "q" :: _ => s!"{cid}.{k} kc={kc}" :: go w kc (k + 1) r
+      | _ =>
       match parseGEv ev with
       | some x =>
         let (w', o) := w.step key id x
         let terminal := match x with | .emit n => n.isTerm | _ => false
-        s!"{cid}.{k} {fmtGEvent (o.map showGOut) terminal}" :: go w' (k + 1) r
+        let kc' := match x with
+          | .emit (.next _) => if !w.srcDone && w.slot.isSome then kc + 1 else kc
+          | _ => kc
+        s!"{cid}.{k} {fmtGEvent (o.map showGOut) terminal}" :: go w' kc' (k + 1) r
       | none => [s!"{cid}.{k} BADEV"]
-  go (GroupBy.World.init outer skip) 0 events
+  go (GroupBy.World.init outer skip) 0 0 events
 
 end Rx.Driver
